@@ -235,3 +235,130 @@ def add_metadata_window(ck, mod):
                     okv &= isinstance(v, dict) and v == {"colA": ("populated", ("item", str(k), "colA")), "colB": ("populated", ("item", str(k), "colB"))}
             ck.struct("dmd.add.values_of_that_sample", bool(okv), "%s: %s" % (tag, {k: d[k] for k in got}), {"attr": tag})
         ck.add(pysym.obligations_of(outs, func))
+
+
+# ---------------------------------------------------------------------------------------------------------------------
+class _TStr(str):
+    """subdirectory name stand-in carrying the symbolic time it was rendered from"""
+    pass
+
+
+def writer_placement(ck, mod, mmax=3):
+    """DigitalMetadataWriter._sample_group_generator, the real generator on m ascending symbolic samples: every sample's group is created in
+    the file <prefix>@T.h5 with T = floor(floor(k*d/n)/C)*C inside the subdirectory floor(T/S)*S, one group per sample, in order."""
+    from spec.timespec import floor_is
+    from checks.C13 import FloatRate
+    W = mod.DigitalMetadataWriter
+    ck.add_function(pyload.source_info(mod, "DigitalMetadataWriter._sample_group_generator"))
+    func = "digital_metadata.DigitalMetadataWriter._sample_group_generator"
+    n, d, C, S = z3.Ints("n d C S")
+    real = {k: mod.__dict__[k] for k in ("os", "h5py", "datetime")}
+    import os as real_os, datetime as real_dt
+    for m in range(1, mmax + 1):
+        ks = [z3.Int("k%d" % i) for i in range(m)]
+        hyp = [n >= 1, d >= 1, C >= 1, S >= 1, ks[0] >= 0] + [a < b for a, b in zip(ks, ks[1:])]
+
+        def mk():
+            rec = dict(files=[], mkdirs=[], groups=[])
+
+            class Grp:
+                def __init__(self, f, name):
+                    self.file, self.name = f, name
+
+            class F:
+                def __init__(self, path, mode):
+                    self.path, self.mode, self.names, self.closed = path, mode, [], False
+
+                def __enter__(self):
+                    return self
+
+                def __exit__(self, *a):
+                    self.closed = True
+                    return False
+
+                def create_group(self, name):
+                    if name in self.names:
+                        raise ValueError("exists")
+                    if self.closed:
+                        raise RuntimeError("group created in a closed file")
+                    self.names.append(name)
+                    g = Grp(self, name)
+                    rec["groups"].append(g)
+                    return g
+
+            def File(path, mode="r", **kw):
+                # recover the symbolic file time behind the digits of the basename from the display log of this path
+                log = pysym.Ctx.cur.__dict__.get("display_log", [])
+                f = F(path, mode)
+                f.ts_term = log[-1][0] if log else None
+                f.ts_digits = log[-1][1] if log else None
+                rec["files"].append(f)
+                return f
+
+            class DT:
+                def __init__(self, t):
+                    self.t = t
+
+                def strftime(self, fmt):
+                    s_ = _TStr("<subdir %s>" % fmt)
+                    s_.sym = self.t
+                    s_.fmt = fmt
+                    return s_
+
+            class Path:
+                def __init__(self, parts):
+                    self.parts = parts
+
+            def join(*parts):
+                return Path(parts)
+            fake_path = types.SimpleNamespace(join=join, exists=lambda p: False)
+            mod.os = types.SimpleNamespace(path=fake_path, makedirs=lambda p, *a, **k: rec["mkdirs"].append(p))
+            mod.h5py = types.SimpleNamespace(File=File)
+            mod.datetime = types.SimpleNamespace(datetime=types.SimpleNamespace(fromtimestamp=lambda t, tz=None: DT(t)), timezone=real_dt.timezone)
+            self_ = types.SimpleNamespace(_file_cadence_secs=pysym.SymInt(C), _subdir_cadence_secs=pysym.SymInt(S), _sample_rate_numerator=pysym.SymInt(n),
+                                          _sample_rate_denominator=pysym.SymInt(d), _samples_per_second=FloatRate(), _file_name="md", _metadata_dir="/m")
+            return (self_, [pysym.SymInt(k) for k in ks]), {}, rec
+
+        def runner(self_, samples):
+            return list(W._sample_group_generator(self_, samples))
+        try:
+            outs = pysym.explore(runner, mk, hyp, max_paths=300)
+        finally:
+            for kk, v in real.items():
+                mod.__dict__[kk] = v
+        for oc in outs:
+            r = oc.extra
+            meta = {"m": m}
+            tag = "samples=%d" % m
+            if oc.kind != "return":
+                from checks.C13 import FloatUsed
+                if isinstance(oc.value, FloatUsed):
+                    ck.struct("w.gen.integer_arithmetic", False, "the writer's placement uses floating point (%s)" % oc.value, {"attr": tag, "no_input": True})
+                else:
+                    ck.add([Obl("w.gen.total", func, 0, oc.pc, z3.BoolVal(False), kind="post", meta=meta)])
+                continue
+            groups = oc.value
+            okg = len(groups) == m and all(g is r["groups"][i] for i, g in enumerate(groups)) and [g.name for g in groups] == [str(pysym.SymInt(k)) for k in ks]
+            ck.struct("w.gen.one_group_per_sample_in_order", okg, "%s: groups %s" % (tag, [g.name for g in groups]), {"attr": tag})
+            if not okg:
+                continue
+            for i, g in enumerate(groups):
+                f = g.file
+                p = f.path
+                okp = isinstance(p, object) and hasattr(p, "parts") and len(p.parts) == 2 and hasattr(p.parts[0], "parts") and len(p.parts[0].parts) == 2 \
+                    and p.parts[0].parts[0] == "/m" and isinstance(p.parts[0].parts[1], _TStr) and p.parts[0].parts[1].fmt == "%Y-%m-%dT%H-%M-%S" \
+                    and isinstance(p.parts[1], str) and f.ts_digits is not None and p.parts[1] == "md@%d.h5" % f.ts_digits and f.mode == "a"
+                ck.struct("w.gen.path_shape", okp, "%s: sample %d is written to %r (expected /m/<subdir time>/md@<file time>.h5 opened for append)" % (tag, i, getattr(p, "parts", p)), {"attr": tag})
+                if not okp:
+                    continue
+                sub = pysym.Zt(p.parts[0].parts[1].sym)
+                fts = f.ts_term
+                sec, q, T = z3.Int("sec%d" % i), z3.Int("qT%d" % i), z3.Int("T%d" % i)
+                spec = [floor_is(sec, ks[i] * d, n), T == q * C, q * C <= sec, sec < q * C + C]
+                ck.add([Obl("w.gen.file_time", func, 0, oc.pc + spec, fts == T, kind="post", meta=dict(meta, sample=i)),
+                        Obl("w.gen.subdir", func, 0, oc.pc + [fts >= 0], z3.And(sub <= fts, fts < sub + S, z3.Exists([z3.Int("mm")], sub == z3.Int("mm") * S)), kind="post", meta=dict(meta, sample=i))])
+                ck.struct("w.gen.subdir_created", any(x is p.parts[0] for x in r["mkdirs"]), "%s: the subdirectory of sample %d is not created before its file is opened" % (tag, i), {"attr": tag})
+        ck.add(pysym.obligations_of(outs, func))
+    for o in ck.obls:
+        if o.label.startswith("w.gen") and not o.bounded:
+            o.bounded = "<= %d samples per write call (sample indices, rate and cadences symbolic)" % mmax
